@@ -170,6 +170,10 @@ def make_spline(kind, how="init", monotone=False, extra_kw=None):
                 got_kind = "Pchip" if type(it).__name__ == "PchipInterpolator" else "interp1d"
                 got_kw = {k: v for k, v in c.kwargs.items()}
             ctx.true("requested_interpolator_kind_is_used", got_kind == want_kind)
+            # what is serialised (x, y, kind, options) is the same before and after the characteristic has been evaluated
+            stored = {k: v for k, v in (extra_kw or {}).items() if k != "interpolator_kind"}
+            ctx.true("evaluation_keeps_the_stored_options", dict(c.kwargs) == stored)
+            ctx.true("evaluation_keeps_the_stored_interpolator_kind", c.interpolator_kind == want_kind)
             for k, v in (extra_kw or {}).items():
                 if k == "interpolator_kind":
                     continue
@@ -204,6 +208,8 @@ def instances(tier):
                  meta=dict(cls="SplineCharacteristic", interpolator="Pchip", data="monotone")),
             Inst("spline_from_points_pchip_monotone", make_spline("pchip", how="from_points", monotone=True), nvars=24, samples=3,
                  meta=dict(cls="SplineCharacteristic.from_points", interpolator="Pchip", data="monotone")),
+            Inst("spline_options_fill_value", make_spline("interp1d", extra_kw=dict(kind="linear", fill_value=(0.5, 2.0))), nvars=16, samples=2,
+                 meta=dict(cls="SplineCharacteristic", interpolator="interp1d", options="kind=linear, fill_value=(0.5, 2.0)")),
             Inst("spline_from_points_options", make_spline("interp1d", how="from_points", extra_kw=dict(kind="linear")), nvars=16, samples=2,
                  meta=dict(cls="SplineCharacteristic.from_points", interpolator="interp1d", options="kind=linear")),
             Inst("log_spline_from_points_pchip", make_spline("log", how="from_points", extra_kw=dict(interpolator_kind="Pchip")), nvars=24, samples=2,
